@@ -10,7 +10,7 @@ const modelsPath = "github.com/go-kid/ioc/zzverif/models"
 
 // libStub: contract stubs of third-party libraries and engine hooks of the models package.
 func (x *Exec) libStub(fn *ssa.Function, args []Val, site string) (Val, bool) {
-	name := fn.String()
+	name := x.w.name(fn)
 	switch name {
 	case "encoding/json.Marshal":
 		// only the two values the container itself produces here: an empty map and an empty list
